@@ -252,6 +252,19 @@ func (r *Report) Finish(p *Prog, noEvidence bool) int {
 	if err != nil {
 		r.Errorf("%v", err)
 	}
+	if p != nil {
+		if miss := p.UnresolvedKeys(); len(miss) > 0 {
+			// a function a rule looks for no longer exists under that name:
+			// whatever the rules concluded about code around it is unreliable
+			r.Errorf("callee anchors do not resolve (renamed or removed): %s - cannot decide", strings.Join(miss, ", "))
+			for i := range r.Obls {
+				if r.Obls[i].Status == Violated {
+					r.Obls[i].Status = Undecided
+					r.Obls[i].How = "[anchor moved] " + r.Obls[i].How
+				}
+			}
+		}
+	}
 	for _, id := range r.order {
 		st := r.rules[id]
 		if st.Instances < st.Floor {
